@@ -2,7 +2,7 @@
   C08 — Persisters return the latest written value regardless of batching state.
 -/
 import SV.Persist.Proofs
-import SV.GenProofs
+import SV.GenProofs.Persist
 namespace SV.Props.C08
 open SV SV.Persist
 
